@@ -501,9 +501,12 @@ def graph_masks(tier, seed):
     import random
     r = random.Random("c02-%d" % seed)
     out = [(n, list(range(1 << (n * (n - 1) // 2)))) for n in range(0, 5)]
-    k5, k6 = (12, 4) if tier == "quick" else (160, 60)
-    out.append((5, sorted({0, (1 << 10) - 1} | {r.getrandbits(10) for _ in range(k5)})))
-    out.append((6, sorted({0, (1 << 15) - 1} | {r.getrandbits(15) for _ in range(k6)})))
+    if tier == "quick":
+        out.append((5, sorted({0, (1 << 10) - 1} | {r.getrandbits(10) for _ in range(40)})))
+        out.append((6, sorted({0, (1 << 15) - 1} | {r.getrandbits(15) for _ in range(12)})))
+    else:
+        out.append((5, list(range(1 << 10))))                       # every 5-vertex graph
+        out.append((6, sorted({0, (1 << 15) - 1} | {r.getrandbits(15) for _ in range(600)})))
     return out
 
 
@@ -520,10 +523,11 @@ def workload(tier, seed):
                         if n <= 5:
                             yield "tseitin", {"cls": cls, "n": n, "masks": ch, "as_nx": as_nx}
                 for ch in chunks(masks, 8):
-                    if n <= 4:
+                    if n <= 4 or (n == 5 and not quick):
                         yield "kcolor", {"cls": cls, "n": n, "masks": ch, "as_nx": as_nx}
                         yield "domset", {"cls": cls, "n": n, "masks": ch, "as_nx": as_nx}
                         yield "clique", {"cls": cls, "n": n, "masks": ch, "as_nx": as_nx}
+                    if n <= 4:
                         yield "auto", {"cls": cls, "n": n, "masks": ch, "as_nx": as_nx}
                     if n <= 3 or (n == 4 and not quick):
                         yield "ramlb", {"cls": cls, "n": n, "masks": ch, "as_nx": as_nx}
@@ -539,7 +543,8 @@ def workload(tier, seed):
         yield "iso", {"cls": cls, "n1": 2, "n2": 2, "pairs": [(0, 0), (0, 1), (1, 1)], "as_nx": True}
         import random
         r = random.Random("c02iso-%d" % seed)
-        prs = [(r.getrandbits(6), r.getrandbits(6)) for _ in range(40 if quick else 600)]
+        prs = [(r.getrandbits(6), r.getrandbits(6)) for _ in range(80)] if quick else \
+            [(a, b) for a in range(64) for b in range(64)]           # thorough: every pair of 4-vertex graphs
         # isomorphic pairs on purpose: a graph and a relabelled copy
         for _ in range(20 if quick else 200):
             m = r.getrandbits(6)
@@ -555,11 +560,13 @@ def workload(tier, seed):
         for ch in chunks(prs, 10):
             yield "iso", {"cls": cls, "n1": 4, "n2": 4, "pairs": ch, "as_nx": False}
         # subgraph: G up to 4 vertices, H up to 3 vertices
-        for N in range(0, 5):
+        for N in range(0, 5 if quick else 6):
             for k in range(0, 4):
                 if k * N > S.CAP[tier]:
                     continue
                 gmasks = list(range(1 << (N * (N - 1) // 2)))
+                if N == 5:
+                    gmasks = sorted(r.sample(gmasks, 160))
                 hmasks = list(range(1 << (k * (k - 1) // 2)))
                 for ch in chunks(gmasks, 8):
                     yield "subgraph", {"cls": cls, "N": N, "k": k, "gmasks": ch, "hmasks": hmasks, "as_nx": False}
